@@ -354,6 +354,7 @@ impl StorageEngine {
         if let Some(stored_value) = shard_guard.data.get_mut(key) {
             stored_value.metadata.set_expiration(expires_in);
             shard_guard.expiring_keys.insert(key.to_vec(), crate::storage::value::ValueMetadata::deadline_after(Instant::now(), expires_in));
+            shard_guard.mark_modified(key);
             Ok(true)
         } else {
             Ok(false)
